@@ -652,12 +652,17 @@ func vxC04History() {
 	// operations.
 	K, nfocus, nx, goOn := 3, 5, 2, false
 	if vx.Thorough() {
-		K = 4 //TMP
+		nfocus, nx, goOn = 6, 6, true
 	}
 	focus := vx.Choice("focus", nfocus)
 	symNames := focus == 0 || focus == 5
+	if focus == 5 {
+		// thorough only: every kind and the names symbolic at once
+		goOn = false
+	}
 	// A "partial" client has only some kinds of identifiers (so that updates
-	// drop and gain identifiers): {ClientID, CIDR} or {IP, MAC}.
+	// drop and gain identifiers): {ClientID, CIDR} or {IP, MAC}; thorough: or
+	// any single kind.
 	pmask := []int{1 | 4, 2 | 8, 1, 2, 4, 8}[vx.Choice("x", nx)]
 
 	var regs, all []*vxC04C
